@@ -110,6 +110,10 @@ def main():
                         'efc_D > 0, efc_R > 0, frictionloss >= 0, mu > 0, friction > 0, R[j]*friction[j-1]^2 == R[0]*mu^2 (mj_makeImpedance)',
                         'Newton and CG return the efc_force computed by mj_constraintUpdate_impl at their final iterate: the '
                         'admissibility clauses are proved for every jar, hence for the final one'}
+    chk.assumptions.add('mj_contactForce: the pyramidal branch uses mju_decodePyramid by frame only (its decoding is proved through the dim-wise clients above); mj_isPyramidal is named by a ghost; valid contacts have their rows inside efc_force')
     chk.out_of_reach += ['PGS / noslip (solPGS, projectCone iterate): projection loops', 'qfrc_constraint = J^T efc_force (mj_mulJacTVec)',
                          'islands/sleeping re-assembly of efc_force']
+    # what the user reads back for one contact (dispatch on the cone type, adhesion, zero for contacts outside the solver)
+    from contracts import contactforce
+    chk.unit('src/engine/engine_core_util.c', 'mj_contactForce', contactforce.contracts(), 'math', 'real', check_arith=False)
     return chk.finish()
